@@ -40,7 +40,7 @@ EXHAUSTIVE_NOTE = 'all 256 exit codes x 6 first observers and 18 signals x 6 fir
 
 SIGS = ['HUP', 'INT', 'QUIT', 'ILL', 'TRAP', 'ABRT', 'BUS', 'FPE', 'KILL', 'USR1', 'SEGV', 'USR2', 'ALRM', 'TERM',
         'XCPU', 'VTALRM', 'PROF', 'SYS']      # PIPE and XFSZ are ignored by Python and inherited as ignored by pty children
-OBSERVERS = ['isalive', 'wait', 'close', 'terminate', 'expect_eof', 'read']
+OBSERVERS = ['isalive', 'wait', 'close', 'terminate', 'expect_eof', 'read', 'eof_only']      # eof_only: a read that hit EOF, nothing else
 
 
 def shards(tier):
@@ -69,7 +69,11 @@ def cases(draw):
         how = 'self'
     n = draw(st.integers(1, 5))
     hist = [draw(st.sampled_from(OBSERVERS)) for _ in range(n)]
-    if transport == 'pty' and draw(st.integers(0, 5)) == 0:
+    if transport == 'pty' and how == 'self' and draw(st.integers(0, 5)) == 0:
+        # the child leaves a background job behind that ignores SIGHUP and keeps the terminal open (and silent):
+        # no hang-up, the death is only visible through pexpect's own liveness checks
+        how = 'self-orphan'
+    elif transport == 'pty' and draw(st.integers(0, 5)) == 0:
         # close(force=False) is refused by a child that ignores HUP and INT; the child then meets its fate
         # (TERM -> exit N through a trap, or another signal) and is observed through the history
         how = 'close-refused'
@@ -85,6 +89,9 @@ def command(fate, how):
         return ['/bin/sh', '-c', "trap '' HUP INT; %secho READY; while :; do sleep 0.02; done" % tail]
     if how.endswith('-stubborn'):
         return ['/bin/sh', '-c', "trap '' HUP INT; exec sleep 300"]
+    if how == 'self-orphan':
+        tail = 'exit %d' % fate[1] if fate[0] == 'exit' else 'ulimit -c 0; kill -%s $$; sleep 5' % fate[1]
+        return ['/bin/sh', '-c', "trap '' HUP; sleep 2 & trap - HUP; %s" % tail]
     if how != 'self':
         return ['/bin/sh', '-c', 'exec sleep 300']
     if fate[0] == 'exit':
@@ -188,7 +195,7 @@ def check_pty(case, col=None):
                     col.label('close-not-refused')
                 return          # nothing to observe: the precondition of this history was not reached
             os.kill(child.pid, signal.SIGTERM if fate[0] == 'exit' else int(getattr(signal, 'SIG' + fate[1])))
-        if how in ('self', 'kill', 'close-refused'):
+        if how in ('self', 'kill', 'close-refused', 'self-orphan'):
             if not wait_zombie(child.pid):
                 raise Violation('harness-child-did-not-die', 'the child %r is not a zombie after 10 s' % (cmd,))
         observed = how in ('terminate', 'close', 'terminate-stubborn', 'close-stubborn')
@@ -226,6 +233,10 @@ def check_pty(case, col=None):
                         if time.time() - t0 > 15:
                             raise Violation('still-alive', '%s: alive 15 s after EOF' % where)
                         time.sleep(0.005)
+                elif op == 'eof_only':
+                    if closed:
+                        continue
+                    child.expect(EOF)
                 elif op == 'read':
                     if closed:
                         continue
